@@ -174,7 +174,26 @@ struct Ctx
         Out o;
         auto body = [&]() {
             try {
-                sub->check(c, o);
+                if (c.kind == Json::Obj && c.has("__seq")) {
+                    // several cases executed one after the other in the SAME thread: each must still satisfy the property
+                    // for its own arguments (nothing may leak from one call of the library to the next)
+                    int k = 0;
+                    o.evals = 0;
+                    for (const Json& ci : c.at("__seq").a) {
+                        Out oi;
+                        sub->check(ci, oi);
+                        o.evals += oi.evals;
+                        if (oi.discard) { ++k; continue; }
+                        for (uint64_t key : oi.keys) o.keys.push_back(key);
+                        for (auto& l : oi.labels) o.labels.push_back(l);
+                        for (auto& m : oi.metrics) o.metrics.push_back(m);
+                        if (oi.failed) { o.fail(oi.sig, fmt("[case %d of a %zu-case sequence in one thread] ", k, c.at("__seq").size()) + oi.msg); o.extra = oi.extra; break; }
+                        ++k;
+                    }
+                    o.labels.push_back("kit:case-sequence");
+                } else {
+                    sub->check(c, o);
+                }
             } catch (const std::exception& e) {
                 o.fail("unexpected-exception", std::string("exception escaped the predicate: ") + e.what());
             }
@@ -243,6 +262,13 @@ struct Ctx
         auto res = ::rc::detail::checkTestable(
           [&]() {
               Json c = make();
+              auto pick_ = [](int lo, int hi) { return *::rc::gen::resize(kNominalSize, ::rc::gen::inRange<int>(lo, hi + 1)); };
+              if (seq_mode && pick_(0, 3) == 3) {   // a quarter of the cases: 2-3 generated cases run back to back in one thread
+                  Json sq = Json::array();
+                  sq.push(c);
+                  for (int extra = pick_(1, 2); extra > 0; --extra) sq.push(make());
+                  c = Json::object().set("__seq", sq);
+              }
               Out o = run_check(c);
               account(c, o);
               if (o.discard) { RC_DISCARD("premise not met"); }
@@ -267,6 +293,7 @@ struct Ctx
 #endif
     int harness_errors{0};
     bool fresh_thread{false};
+    bool seq_mode{false};   // rc(): a quarter of the generated cases become short case sequences (set together with fresh_thread)
 };
 inline bool& fresh_thread_default() { static bool v = false; return v; }
 struct FreshThreadOn { FreshThreadOn() { fresh_thread_default() = true; } };
@@ -506,6 +533,7 @@ inline int harness_main(const char* property, int argc, char** argv) {
     Ctx ctx;
     ctx.property = property;
     ctx.fresh_thread = fresh_thread_default();
+    ctx.seq_mode = fresh_thread_default();
     std::string out_path, replay_path, only, trace_path;
     for (int i = 1; i < argc; ++i) {
         std::string a = argv[i];
